@@ -349,6 +349,25 @@ theorem wcsfcS_model (dmax : Nat) (src : List Nat) (h0 : ∀ c ∈ src, c ≠ 0)
         · intro _ h; exact absurd h (by simp)
         · intro hlen; exact absurd hr (i4 hlen)
 
+/-- the return values: never the negative code of `towfc_s` the documentation mentions (ESNOTFND "when iswfc() and towfc_s() are
+mismatched": they are not, `towfcCore_multi`) -/
+theorem wcsfcS_ret (dmax : Nat) (src : List Nat) (h0 : ∀ c ∈ src, c ≠ 0) :
+    (wcsfcS current dmax src).ret = 0 ∨ (wcsfcS current dmax src).ret = ESZEROL ∨ (wcsfcS current dmax src).ret = ESLEMAX ∨
+    (wcsfcS current dmax src).ret = ESNOSPC := by
+  obtain ⟨_, i2, _, _, _⟩ := fcLoop_spec src dmax h0
+  unfold wcsfcS
+  by_cases hd : dmax = 0
+  · simp [hd]
+  · by_cases hmax : dmax > RSIZE_MAX_WSTR
+    · simp [hd, hmax]
+    · simp only [hd, if_false, hmax]
+      cases hr : fcLoop current src dmax with
+      | ok out d => cases d <;> simp
+      | fail r l =>
+        rcases i2 r l hr with ⟨h1, h2⟩ | ⟨h1, h2⟩ <;> subst h1 <;> subst h2 <;> simp
+      | oob => simp
+      | overrun => simp
+
 /-- four cells more than the result: `wcsfc_s` succeeds (sharp: `wcsfc_exact_fit_witness`) -/
 theorem wcsfcS_succeeds (dmax : Nat) (src : List Nat) (hs : ∀ c ∈ src, c ≠ 0 ∧ c ≤ 0x10FFFF) (hmax : dmax ≤ RSIZE_MAX_WSTR)
     (hroom : (fcPure src).length + 4 ≤ dmax) :
